@@ -29,6 +29,14 @@ CHECKS = {
   design_ref="DESIGN.md section 4",
   note="Trusted: Go runtime/bufio, the harness' simulated reader/sink, the object generators (random residues, not cryptographically meaningful keys). Corruption positions are found format-independently (small little-endian words, 0/1 bytes); for encodings containing map keys the 'accepted but shorter' sub-check is skipped (a collided key is not a length/flag field). Allocation bound 1 GiB. bootstrapping.EvaluationKeys and bootstrapping.Parameters are not in the catalog yet.",
 ),
+"C09": dict(
+  engine="histsim",
+  technique="deterministic simulation of call histories on long-lived evaluators/encoders with seeded aliasing patterns, dirty outputs and scratch-memory poisoning (fault injection into memory that by contract carries no information); twin execution on a pristine object with copied inputs and a clean natural-shape output; minimised choice-trace replay",
+  category="exploration",
+  text="Each run is a seed-determined history of 6-30 operations of the integer (standard and scale-invariant) or approximate evaluator on a pool of ciphertexts whose members are earlier results. Every step draws operand kinds (ciphertext, plaintext, vector, every scalar Go type incl. *big.Int/*big.Float), an aliasing pattern (out==op0, out==op1, op0==op1, all equal, or a dirty output of larger degree/level with arbitrary content and metadata) and whether all scratch memory reachable from the evaluator is overwritten with garbage first. The same call is executed on a freshly built twin with deep copies of the inputs and a zeroed distinct output of the natural shape. Oracles: every non-output argument is bit-identical after the call; the status (ok/error/panic) agrees (an aliased or mis-shaped output may be refused with an error); accepted calls produce the same ciphertext (level, metadata, polynomials compared canonically, trailing zero components ignored); evaluation keys unchanged; the embedded encoder after the history and poisoning agrees with a new one; encrypt/decrypt leave inputs intact and ignore the previous content and level of their output. Input-intactness of protocol methods is checked inside the C14-C16 workloads.",
+  design_ref="DESIGN.md section 6",
+  note="Trusted: the harness' canonical comparison and deep-copy (CopyNew) of inputs. Scratch is found by field name (buff*/buf*/tmp*/pool*) and type; poisoned byte counts are reported. Operations documented as in place or as no-op (DropLevel, MatchScalesAndLevel, Rescale in scale-invariant mode) are modelled as documented. rgsw, lintrans and polynomial evaluators are not in the catalog yet.",
+),
 "C14": dict(
   engine="simnet",
   technique="deterministic discrete-event network simulation of N parties and a tree of aggregators running several collective key-generation instances concurrently: seeded delay/reordering, duplication, in-transit serialization, aliasing forms of aggregation, mis-routed shares; ideal-secret oracles computed with the simulator's knowledge of all secrets; minimised choice-trace replay",
